@@ -330,6 +330,20 @@ func c17(c *Ctx) {
 		}
 	})
 
+	c.Rule("C17.R6", "every attempt of a request emits the same well-formed payload: the per-attempt closures of the HTTP backends build a fresh reader over the payload and assign no captured variable (a compressed payload is not compressed again on a retry)", 6, func(r *Rule) {
+		n := 0
+		for _, g := range attemptClosures(w) {
+			if !strings.Contains(fnPkgPath(g), "/pkg/backends/") {
+				continue
+			}
+			n++
+			c.SawFunc(FuncName(g))
+			attemptFreshBody(r, g)
+			attemptIdempotent(r, g)
+		}
+		r.Check("backends:attempt-closures", n >= 3, token.NoPos, fmt.Sprintf("%d per-attempt request closures in pkg/backends (datadog, influxdb, newrelic)", n))
+	})
+
 	c.Rule("C17.R4", "hard limits: at most 20 data per CloudWatch call; the statsd relay tests the packet size before every write", 4, func(r *Rule) {
 		cw := w.Func("pkg/backends/cloudwatch", "(*Client).SendMetricsAsync")
 		if cw == nil {
